@@ -328,6 +328,10 @@ func (g *Gen) Generate() *Program {
 			g.feat("type.alias." + t.ShapeName())
 		}
 	}
+	if g.on("names.reuse") && r.Chance(1, 3) {
+		g.feat("names.reuse")
+		ReuseLocalNames(g.M)
+	}
 	if g.on("decl.reorder") && r.Chance(1, 2) {
 		g.feat("decl.reorder")
 		ds := g.M.Decls
@@ -561,7 +565,7 @@ func (g *Gen) sinkLocals() []Stmt {
 		}
 	}
 	for _, v := range g.visible() {
-		if v.Alias != nil || v.Kind == VParam && v.Ty.Kind == KPtr {
+		if v.Alias != nil || v.Ty.Kind == KPtr {
 			continue
 		}
 		if v.Kind == VLocal || v.Kind == VLet {
